@@ -50,9 +50,20 @@ def main(argv):
         spec = PROPERTIES[prop]
         report.explanation = spec.EXPLANATION
         report.assumptions = list(spec.ASSUMPTIONS)
+        broken = []
         for rid, fn in spec.RULES:
             report.rules_run.append(rid)
-            fn(ctx)
+            try:
+                fn(ctx)
+            except AnalysisError as e:
+                # a rule that lost its anchors does not hide what the other rules of the property found
+                broken.append('%s: %s' % (rid, e))
+        if broken:
+            for b in broken:
+                print('ANALYSIS-ERROR %s' % b)
+            report.stats['analysis_errors'] = broken
+            rc = report.finish()
+            return rc if rc == 1 else 2
         report.stats.update(ctx.stats())
         if tier == 'thorough':
             from .variants import validate
